@@ -29,6 +29,11 @@ ASTs        B and|or <n> … | 1 not|usub|uadd|invert <a> | 2 bitand|bitor|x:<Ty
                                  ->  `err <Class>` | per leaf of the parsed query `ok <leaf>`/`err <Class>`, joined by ` ; `
                                      ## `reject` when the parsed object is not a query tree over values
   resolve <names> <k> (…){k}     ->  `ok <obj>`: the parsed query with every leaf resolved | `err <Class>`
+  rerun spy|real <r> <names>{r} <k> (E <ast> | S <Type>){k}
+                                 ->  the SAME parsed object executed r times: per execution the leaves (spy) or the
+                                     resolved tree (real), joined by ` | `, then ` || unchanged` (the object after the
+                                     last execution renders as before the first)
+  reruntree spy|real <r> <names>{r} <obj>      the same for a given object (the optimised tree)
   names = nonames | <k> (<hex> <obj>){k}
 -/
 namespace Driver.CqeS
@@ -446,6 +451,13 @@ def pNames : Nat → List String → Option (Names × List String)
     pure (some m, r)
   | _, [] => none
 
+def pNamesK (fuel : Nat) : Nat → List String → Option (List Names × List String)
+  | 0, ts => some ([], ts)
+  | n + 1, ts => do
+    let (x, r) ← pNames fuel ts
+    let (xs, r') ← pNamesK fuel n r
+    pure (x :: xs, r')
+
 /-! ### session -/
 
 def showErr : Err → String
@@ -482,6 +494,15 @@ def resolveList (names : Names) : List W → Except Err (List W)
     let qs' ← resolveList names qs
     pure (q' :: qs')
 end
+
+/-- `rerun`: successive executions of one object (`execSeq`) -/
+def rerunOut (spy : Bool) (w : W) (ns : List Names) : String :=
+  if !w.isQuery then "notquery ## reject" else
+  let (w', rounds) := execSeq w ns
+  let shown := if spy then rounds.map (fun r => " ; ".intercalate (r.map showRes))
+               else ns.map (fun n => showRes (resolveAll n w))
+  " | ".intercalate shown ++ " || " ++ (if showW w' == showW w then "unchanged" else "CHANGED " ++ showW w') ++
+    (if (unembed w).isNone then " ## reject" else "")
 
 def sigma (names : Names) (n : String) : Option W :=
   match names with
@@ -568,6 +589,29 @@ def step (st : St) (toks : List String) : St × String :=
           else (st, "notquery ## reject")
       | _ => (st, "bad-op")
     | none => (st, "bad-op")
+  | "rerun" :: target :: r :: rest =>
+    match r.toNat? with
+    | none => (st, "bad-op")
+    | some r =>
+      match pNamesK fuel r rest with
+      | some (ns, rest') =>
+        match pModule rest' with
+        | some (body, []) =>
+          match parse st.cat body with
+          | .error e => (st, showErr e)
+          | .ok w => (st, rerunOut (target == "spy") w ns)
+        | _ => (st, "bad-op")
+      | none => (st, "bad-op")
+  | "reruntree" :: target :: r :: rest =>
+    match r.toNat? with
+    | none => (st, "bad-op")
+    | some r =>
+      match pNamesK fuel r rest with
+      | some (ns, rest') =>
+        match pW fuel rest' with
+        | some (w, []) => (st, rerunOut (target == "spy") w ns)
+        | _ => (st, "bad-op")
+      | none => (st, "bad-op")
   | "rt" :: rest =>
     match pSx fuel rest with
     | some (s, []) =>
